@@ -338,4 +338,41 @@ theorem transient_per_site (lk : Nat → Option CDef) (hu : UidInj lk) (pre : Li
   · simp [Closure.push]
 
 
+
+/-- T0: request-scoped `c0`; T1: request-scoped `c1(&T0)`; T2: transient `c2(&T0)`; T3: singleton `c3` -/
+def exTab : List CDef := [⟨0, 0, .request, false, []⟩, ⟨1, 1, .request, false, [(0, .ref)]⟩,
+  ⟨2, 2, .transient, false, [(0, .ref)]⟩, ⟨3, 3, .singleton, false, []⟩]
+def exLk : Nat → Option CDef := fun t => exTab.find? (fun d => d.ty == t)
+
+-- Non-vacuity (one call graph): a component taking &T1, &T0, T2, T2, &T3. `c0` is needed three times and has
+-- one node; each of the two T2 inputs gets its own `c2` node; the singleton is a parameter.
+example :
+    let r := closureOf exLk [] .request 5 [(1, .ref), (0, .ref), (2, .val), (2, .val), (3, .ref)]
+    r.1.nodes.map (·.ctor.uid) = [0, 1, 2, 2] ∧ r.2 = [.built 1, .built 0, .built 2, .built 3, .param 3] ∧
+    r.1.rs = [0, 1] ∧ r.1.paramTypes = [(3, .ref)] ∧
+    r.1.nodes.map (·.ins) = [[], [.built 0], [.built 0], [.built 0]] ∧
+    refs 2 (r.1.inner ++ r.2) = 1 ∧ refs 3 (r.1.inner ++ r.2) = 1 ∧ refs 0 (r.1.inner ++ r.2) = 4 := by decide
+example : UidInj exLk := uidInj_of_table exTab (by decide)
+-- with `c0` prebuilt by an earlier stage it becomes a parameter of the closure
+example : (closureOf exLk [0] .request 5 [(1, .ref), (0, .ref)]).1.nodes.map (·.ctor.uid) = [1] ∧
+    (closureOf exLk [0] .request 5 [(1, .ref), (0, .ref)]).2 = [.built 0, .param 0] := by decide
+-- the application-state graph: the singleton is the de-duplicated node there
+example : (appClosure exLk 5 [3, 3]).1.nodes.map (·.ctor.uid) = [3] ∧ (appClosure exLk 5 [3, 3]).2 = [.built 0, .built 0] := by decide
+
+/-- a uniform pipeline: wrap `m0(&T0)` in the root (scope 1), pre `m1(&T1)`, handler `h0(&T0, T2)`; every scope
+    resolves like `exLk` -/
+def exEnv : Env := { get := fun _ => exLk, fuel := 5 }
+def exChain : List Comp := [⟨.noop, 0, 5, []⟩, ⟨.wrap, 0, 1, [(0, .ref)]⟩, ⟨.pre, 1, 4, [(1, .ref)]⟩]
+def exH : Comp := ⟨.handler, 0, 5, [(0, .ref), (2, .val), (3, .ref)]⟩
+def exPlan : Plan := plan exEnv (fun u => (exTab.find? (fun d => d.uid == u)).map (·.ty)) exChain exH
+
+-- Non-vacuity (pipeline): `c0` has three users (m0, m1 through c1, h0) and is hoisted into stage 1 (the wrap `m0`),
+-- the later stage receives it through `Next1`; `enforce_invariants` passes; everybody sees node (1, 0).
+example : exPlan.builtAt = [(0, 1)] ∧ exPlan.invariantsOk = true ∧ exPlan.comps.length = 4 ∧
+    exPlan.comps.map (fun c => c.cl.nodes.map (·.ctor.uid)) = [[], [0], [1], [2]] ∧
+    (exPlan.comps[3]?.map (fun c => c.args.map (exPlan.origin 3))) = some [.node 1 0, .node 3 0, .app 3] ∧
+    (exPlan.comps[2]?.map (fun c => c.cl.nodes.map (fun n => n.ins.map (exPlan.origin 2)))) = some [[.node 1 0]] ∧
+    exPlan.count 0 = 1 := by decide
+example : exPlan.isNodeOf (.node 1 0) 0 := ⟨⟨0, 0, .request, false, []⟩, by decide, rfl, rfl⟩
+
 end Pxv.Life
